@@ -363,3 +363,28 @@ def case_scatter_symbolic_dim():
 
 
 CASES.update({"scatter_reduction": case_scatter_reduction, "scatter_symbolic_dim": case_scatter_symbolic_dim})
+
+
+def case_materialize_reshape_zero():
+    import onnxscript.optimizer
+    g = helper.make_graph([helper.make_node("Reshape", ["x", "s"], ["y"])], "g",
+                          [vi("x", TensorProto.FLOAT, [0, "N"]), vi("s", TensorProto.INT64, [2])], [vi("y", TensorProto.FLOAT, [0, "M"])])
+    m = helper.make_model(g, opset_imports=[helper.make_opsetid("", 18)], ir_version=9)
+    onnx.checker.check_model(m)
+    feeds = {"x": np.zeros((0, 6), np.float32), "s": np.array([0, 3], dtype=np.int64)}
+    import onnxruntime as ort
+
+    def ort_run(mm):
+        sess = ort.InferenceSession(mm.SerializeToString(), providers=["CPUExecutionProvider"])
+        return sess.run(None, {k: v for k, v in feeds.items() if k in {i.name for i in mm.graph.input}})[0]
+    before = ort_run(m)
+    o = onnxscript.optimizer.optimize(m)
+    try:
+        after = ort_run(o)
+    except Exception as e:  # noqa: BLE001
+        print(f"Reshape(x[0,N], s) with output annotated [0,M]: original gives shape {before.shape}; the optimized model fails: {str(e).splitlines()[0][:200]}")
+        return 1
+    return 0 if before.shape == after.shape else 1
+
+
+CASES["materialize_reshape_zero"] = case_materialize_reshape_zero
